@@ -186,7 +186,7 @@ def plist_case(ctx, rng):
             hash_block_size=rng.choice([0, 50000000, 2 ** 62, rng.getrandbits(40)]),
             length=ln,
             size_on_disk=rng.choice([0, 69674819, 2 ** 62, 2 ** 63 - 1, rng.getrandbits(60)]),
-            hashes=["%040x" % rng.getrandbits(160) for _ in range(rng.randint(1, 5))],
+            hashes=[rng.choice(["%040x", "%040X", "%040x"]) % rng.getrandbits(160) if rng.random() < 0.9 else "".join(rng.choice("0123456789abcdefABCDEF") for _ in range(40)) for _ in range(rng.randint(1, 5))],
             ua=rng.choice([0, 7, -1, 2 ** 31 - 1]), ub=rng.choice([0, 8, -2 ** 31]),
         ))
     # a list may name the same patch more than once, or rows that differ in a single field
